@@ -136,7 +136,7 @@ LLVMFuzzerTestOneInput(const uint8_t *data, size_t size)
   vsched::Config cfg;
   lockinterp::run_case(c, cfg, oc, &g_phase);
   C.evaluations++;
-  C.steps += vsched::stats().steps;
+  C.steps = vsched::total_steps();
   C.skipped_ops += oc.skipped;
   C.executed_ops += oc.executed;
   C.excluded_known += oc.excluded_known;
